@@ -59,7 +59,7 @@ int run_memusage(const Args& a) {
         ses.reenter();
         Model model;
         TreeGen tg(r, kg, 300, r.chance(1, 3) ? 4096 : 40);
-        int family = static_cast<int>(t % 7);
+        int family = static_cast<int>(t % 8);
         tg.build(ses.tok, storage, model, family);
         bool has_inline = false;
         bool has_big = tg.value_max > 1000;
